@@ -156,26 +156,42 @@ def check(ctx: Ctx) -> None:
             ob.violation(ci, got[0], f"channel default strconfig is {dv}, documented {ref.DEFAULT_CHANNEL}")
         # Unserializer takes the strconfig of the channel/gateway it is given
         ui = repo.func(f"{GB}.Unserializer.__init__")
-        takes = [n for n in repo.own_nodes(ui) if isinstance(n, ast.Assign) and unparse(n.targets[0]) == "strconfig"
-                 and unparse(n.value).endswith("._strconfig")]
-        ob.site(ui, takes[0] if takes else None, "Unserializer adopts channel_or_gateway._strconfig")
-        if not takes and any(isinstance(n, ast.Attribute) and n.attr == "_strconfig" for n in repo.own_nodes(ui)):
-            raise AnalysisError("C12.d: Unserializer.__init__ reads ._strconfig through an idiom the checker does not know")
-        if not takes:
+        from ..terms import cmp_term, evaluator, show
+        evu = evaluator(repo, ui)
+        ps = ui.params()
+        COG, SC = ("sym", ps[2]), ("sym", ps[3])
+        ADOPT = ("sym", f"{ps[2]}._strconfig")
+        ISNONE = cmp_term("is", COG, ("const", None))
+        npaths = nadopt = 0
+        for (pth, st) in evu.run(limit=4000):
+            if pth[-1][0] != evu.cfg.exit.id:
+                continue
+            tested = [t for (t, _v) in st.cond if t in (SC, ADOPT)]
+            if not tested:
+                ob.violation(ui, ui.node, "Unserializer.__init__ does not look at a strconfig at all", construct="no strconfig test")
+                continue
+            S = tested[-1]
+            npaths += 1
+            none = st.known.get(ISNONE)
+            if none is None and (("pcall", "isinstance", (COG, ("sym", "Channel")), ()), True) in st.cond:
+                none = False
+            if S == ADOPT:
+                nadopt += 1
+            ok = (none is False and S == ADOPT) or (none is True and S == SC)
+            if nadopt == 1 and S == ADOPT:
+                ob.site(ui, ui.node, "the channel's/gateway's *current* strconfig wins whenever one is given", effective=show(S), channel_or_gateway_is_None=none)
+            if not ok:
+                if none is False:
+                    ob.violation(ui, ui.node, "the strconfig of the channel/gateway is adopted only under an extra condition: a snapshot passed explicitly (callback "
+                                              "registration time) overrides a later Channel.reconfigure()", construct="adoption conditional")
+                else:
+                    ob.violation(ui, ui.node, f"Unserializer.__init__ uses {show(S)} as the coercion switches without establishing whether a channel/gateway was given",
+                                 construct="strconfig source undecided")
+            applied = [e for e in st.events if e.kind == "assign" and e.target in (f"self.{P2}", f"self.{P3}")]
+            if st.known.get(S) is True and [(e.target, e.value) for e in applied] != [(f"self.{P2}", ("idx", S, ("const", 0))), (f"self.{P3}", ("idx", S, ("const", 1)))]:
+                ob.violation(ui, ui.node, "the effective strconfig pair is not applied to (py2str_as_py3str, py3str_as_py2str) in this order")
+        if nadopt == 0:
             ob.violation(ui, ui.node, "Unserializer.__init__ no longer adopts the strconfig of its channel/gateway", construct="no _strconfig adoption")
-        else:
-            from ..util import Facts
-            cfu = build_cfg(repo, ui, Oracle(repo, ui, precise=True))
-            for nd in cfu.node_containing(takes[0]):
-                f = Facts(repo, ui, {})
-                for (t, lab) in cfu.guards(nd.id):
-                    if t.kind == "test":
-                        f.assume(t.ast, lab == "true")
-                ok = f.env == {"channel_or_gateway is None": False}
-                ob.site(ui, takes[0], "the channel's/gateway's *current* strconfig wins whenever one is given", guards=dict(f.env))
-                if not ok:
-                    ob.violation(ui, takes[0], "the strconfig of the channel/gateway is adopted only under an extra condition: a snapshot passed explicitly (callback "
-                                               "registration time) overrides a later Channel.reconfigure()")
         # RECONFIGURE handler stores the received pair unmodified
         fr = repo.func(f"{GB}.Message._reconfigure")
         stores = [n for n in repo.own_nodes(fr) if isinstance(n, ast.Assign) and unparse(n.targets[0]).endswith("._strconfig")]
